@@ -44,11 +44,13 @@ pub fn no_body_clause(method: &Method, status: u16) -> bool {
 }
 
 pub fn gen_payload_len(t: &mut Tape) -> usize {
-    match t.weighted(&[2, 5, 2, 1]) {
+    match t.weighted(&[2, 5, 2, 1, 1]) {
         0 => 0,
         1 => t.range(1, 40),
         2 => t.range(41, 300),
-        _ => t.range(12_000, 25_000),
+        3 => t.range(12_000, 25_000),
+        // hex-digit boundaries of chunk sizes
+        _ => (*t.pick(&[16usize, 256, 4096, 10_240]) + t.below(3)).saturating_sub(1),
     }
 }
 
@@ -71,8 +73,16 @@ pub fn gen_response(t: &mut Tape, method: &Method, status: u16, allow_close: boo
         let i = t.below(fields.len() + 1);
         fields.insert(i, Field::new(*t.pick(&["Location", "location"]), loc));
     }
-    match t.weighted(&[5, 2, 1, 1, 1]) {
+    match t.weighted(&[10, 4, 2, 2, 2, 1]) {
         0 => {}
+        5 => {
+            // the same field many times over (counts near internal capacities)
+            let k = t.range(3, 9);
+            let v = *t.pick(&["close", "keep-alive"]);
+            for _ in 0..k {
+                fields.push(Field::new("Connection", v));
+            }
+        }
         1 => fields.push(Field::new("Connection", "close")),
         2 => fields.push(Field::new("connection", "keep-alive")),
         3 => {
@@ -184,7 +194,14 @@ pub fn gen_exchange(t: &mut Tape, allow_close: bool) -> ExchangeSpec {
         }
     };
     let refused = goes_await && await_mode == AwaitMode::Look && server_pre == ServerPre::Refuse;
-    let status = if refused { *t.pick(&[403u16, 417, 401, 200, 302, 500, 413]) } else { *t.pick(&STATUS_POOL) };
+    let status = if refused {
+        *t.pick(&[403u16, 417, 401, 200, 302, 500, 413])
+    } else if t.chance(20) {
+        // any final status, assigned or not
+        t.range(101, 999) as u16
+    } else {
+        *t.pick(&STATUS_POOL)
+    };
     let resp = gen_response(t, &method, status, allow_close);
     let mut extra_headers = vec![];
     for i in 0..t.weighted(&[3, 2, 1]) {
